@@ -440,8 +440,12 @@ def graph_leg(ctx, module, model, gen_cfg, cfgobj, walks, walklen, allhist, sim_
         gen_cfg, g["edges"], g["states"], r["behaviours"], r["steps"], r["failures_n"]))
     vfail = vbeh = 0
     for v in variants or []:
+        v = dict(v)
+        ah = v.pop("_allhist", None)        # this variant also gets every sequence to that depth, and the walks
         set_header_cfg(edges, v)
-        if variant_walks is None:
+        if ah is not None:
+            rv = replay(ctx, model, edges, walks=walks, walklen=walklen, allhist=ah, maxfail=maxfail, histbudget=histbudget)
+        elif variant_walks is None:
             rv = replay(ctx, model, edges, walks=walks, walklen=walklen, allhist=allhist, maxfail=maxfail)
         else:       # many variants: the transition cover (+ variant_walks walks) only
             rv = replay(ctx, model, edges, walks=variant_walks, walklen=walklen, allhist=0, maxfail=maxfail)
